@@ -5,23 +5,29 @@ EXTENDS Stream, Json, IOUtils
 VARIABLES l, viol
 Rec == ndJsonDeserialize(IOEnv.TRACE)
 
-LineViol(e) ==
-  IF e.pan = 1 THEN {"C19_ReaderPanics"}
-  ELSE IF e.open_err # "" THEN
-     (IF \E i \in DOMAIN e.execs : e.execs[i].end \in {"finished", "failed"} THEN {"C19_DirectoryReadable"} ELSE {})
+\* o: one observation [execs, read, open_err, pan] - the final read-back of a run or the read-back after one of its steps
+ObsViol(o) ==
+  IF o.pan = 1 THEN {"C19_ReaderPanics"}
+  ELSE IF o.open_err # "" THEN
+     (IF \E i \in DOMAIN o.execs : o.execs[i].end \in {"finished", "failed"} THEN {"C19_DirectoryReadable"} ELSE {})
   ELSE UNION {
-     IF ~Decided(e.execs, e.read[i].task) THEN {}
-     ELSE (IF ExactBytes(e.execs, e.read[i]) THEN {} ELSE {"C19_ExactBytesInOrder"}) \cup
-          (IF LastRunOnly(e.execs, e.read[i]) THEN {} ELSE {"C19_OnlyLastRun"}) \cup
-          (IF MarkedFinished(e.execs, e.read[i]) THEN {} ELSE {"C19_MarkedFinished"}) \cup
-          (IF SupersededOk(e.execs, e.read[i]) THEN {} ELSE {"C19_SupersededReported"})
-     : i \in DOMAIN e.read}
+     IF ~Decided(o.execs, o.read[i].task) THEN {}
+     ELSE (IF ExactBytes(o.execs, o.read[i]) THEN {} ELSE {"C19_ExactBytesInOrder"}) \cup
+          (IF LastRunOnly(o.execs, o.read[i]) THEN {} ELSE {"C19_OnlyLastRun"}) \cup
+          (IF MarkedFinished(o.execs, o.read[i]) THEN {} ELSE {"C19_MarkedFinished"}) \cup
+          (IF SupersededOk(o.execs, o.read[i]) THEN {} ELSE {"C19_SupersededReported"})
+     : i \in DOMAIN o.read}
+
+\* the promise holds from the moment an execution is reported ended: every intermediate observation is judged as well
+LineViol(e) ==
+  {[p |-> n, at |-> "end"] : n \in ObsViol(e)} \cup
+  UNION {{[p |-> n, at |-> "step"] : n \in ObsViol(e.steps[k])} : k \in DOMAIN e.steps}
 
 TraceInit == l = 1 /\ viol = {}
 TraceNext ==
   /\ l <= Len(Rec)
   /\ l' = l + 1
-  /\ viol' = viol \cup {[p |-> n, run |-> Rec[l].run] : n \in LineViol(Rec[l])}
+  /\ viol' = viol \cup {[p |-> n.p, at |-> n.at, run |-> Rec[l].run] : n \in LineViol(Rec[l])}
 TraceSpec == TraceInit /\ [][TraceNext]_<<l, viol>>
 TraceAccepted ==
   LET d == TLCGet("stats").diameter IN
